@@ -269,6 +269,15 @@ var cliOps = []cliOp{
 	{"Manager.OffAll", func(w *cliWorld) { w.mgr.OffAll() }},
 	{"Manager.Open", func(w *cliWorld) { w.mgr.Open() }},
 	{"same-namespace-Socket-again", func(w *cliWorld) { w.mgr.Socket("/", nil).Emit("m", 5) }},
+	// the server closes the whole connection: these reach the REAL Engine.IO server socket (rig R1's is the harness's;
+	// seed c16i: its close guarded by a check-then-act instead of a Once)
+	{"server-closes-connection", func(w *cliWorld) { w.srv.DisconnectSockets(true) }},
+	{"server-socket-Disconnect(true)", func(w *cliWorld) {
+		for _, s := range w.srv.Sockets() {
+			s.Disconnect(true)
+		}
+	}},
+	{"Server.Close", func(w *cliWorld) { w.srv.Close() }},
 }
 
 // retryOps: the operations that meet the packet queue of a socket configured with Retries (emits are
